@@ -77,6 +77,7 @@ type Result struct {
 	MapRanges int
 	OnceOps   int
 	ChanOps   int
+	GoStmts   int
 }
 
 // Instrument copies the non-test Go files of srcDir (plus go.mod) into dstDir, rewritten.
@@ -414,7 +415,7 @@ func (c *ctx) stmt(fc *fileCtx, s ast.Stmt, fn fnCtx, res *Result) {
 			c.stmtList(fc, cl.Body, fn, res, false)
 		}
 	case *ast.GoStmt:
-		c.unsupported(s, "go statement")
+		c.goStmt(fc, s, fn, res)
 	case *ast.SendStmt:
 		// ch <- v   ==>   simrt.ChanSend(ch, v)
 		c.replace(fc, s.Pos(), s.Value.Pos(), "simrt.ChanSend("+fc.text(s.Chan)+", ")
@@ -576,6 +577,50 @@ func (c *ctx) exprs(fc *fileCtx, n ast.Node, fn fnCtx, res *Result) {
 	})
 }
 
+// goStmt turns `go f(a, b)` into a block that evaluates the function value and the arguments
+// where the go statement stands (as Go does) and hands a closure to the simulator:
+//
+//	{ __gfN := f; __gN_0 := a; __gN_1 := b; simrt.Go(func() { __gfN(__gN_0, __gN_1) }) }
+func (c *ctx) goStmt(fc *fileCtx, s *ast.GoStmt, fn fnCtx, res *Result) {
+	call := s.Call
+	if id, ok := call.Fun.(*ast.Ident); ok {
+		if _, isBuiltin := c.info.Uses[id].(*types.Builtin); isBuiltin {
+			c.unsupported(s, "go statement calling a builtin")
+			return
+		}
+	}
+	if tv, ok := c.info.Types[call.Fun]; ok && tv.IsType() {
+		c.unsupported(s, "go statement with a conversion")
+		return
+	}
+	c.tmpN++
+	n := c.tmpN
+	res.GoStmts++
+	c.replace(fc, s.Pos(), call.Fun.Pos(), fmt.Sprintf("{ __gf%d := ", n))
+	var names []string
+	for i := range call.Args {
+		names = append(names, fmt.Sprintf("__g%d_%d", n, i))
+	}
+	callArgs := strings.Join(names, ", ")
+	if call.Ellipsis.IsValid() {
+		callArgs += "..."
+	}
+	tail := fmt.Sprintf("; simrt.Go(func() { __gf%d(%s) }) }", n, callArgs)
+	if len(call.Args) == 0 {
+		c.replace(fc, call.Lparen, call.Rparen+1, tail)
+	} else {
+		c.replace(fc, call.Lparen, call.Args[0].Pos(), "; "+names[0]+" := ")
+		for i := 1; i < len(call.Args); i++ {
+			c.replace(fc, call.Args[i-1].End(), call.Args[i].Pos(), "; "+names[i]+" := ")
+		}
+		c.replace(fc, call.Args[len(call.Args)-1].End(), call.Rparen+1, tail)
+	}
+	c.exprs(fc, call.Fun, fn, res)
+	for _, a := range call.Args {
+		c.exprs(fc, a, fn, res)
+	}
+}
+
 // chanElem renders the element type of the channel expression e as source text valid inside
 // the package (foreign named types are not supported).
 func (c *ctx) chanElem(e ast.Expr) (string, bool) {
@@ -714,7 +759,15 @@ func (c *ctx) call(fc *fileCtx, call *ast.CallExpr, res *Result) {
 			rewrite("OnceDo")
 			res.OnceOps++
 		}
-	case namedFrom(rt, "sync", "Cond"), namedFrom(rt, "sync", "WaitGroup"):
+	case namedFrom(rt, "sync", "WaitGroup"):
+		m := map[string]string{"Add": "WGAdd", "Done": "WGDone", "Wait": "WGWait"}
+		if r, ok := m[f.Name()]; ok {
+			rewrite(r)
+			res.MutexOps++
+		} else {
+			c.unsupported(call, "sync.WaitGroup."+f.Name())
+		}
+	case namedFrom(rt, "sync", "Cond"):
 		c.unsupported(call, "sync."+rt.String())
 	}
 }
